@@ -1,26 +1,49 @@
 (* Correspondence evaluator for C10: runs the driver models on the call sequences the
    harness ran on the real drivers and reports the indices of disagreeing cases. *)
 From Coq Require Import List String Bool Arith NArith.
-From Helm Require Import Common.Assoc Common.Strs Storage.Spec Storage.Mem Storage.Kube.
+From Helm Require Import Common.Assoc Common.Strs Storage.Spec Storage.Mem Storage.Kube
+  Storage.MemNs Storage.KubeX.
 Import ListNotations.
 
 Inductive backend := BMem | BSecret | BConfigMap.
 
-Record case := mkCase { cbackend : backend; cops : list op; cobs : list out }.
+(* a driver call, or one of the two events outside the driver interface *)
+Inductive cop :=
+| COp (o : op)
+| CCorrupt (name : string) (ver : nat) (status : string)   (* Secret/ConfigMap only *)
+| CSetNs (ns : string).                                   (* memory only *)
 
-(* the codec instance used when running the model: bodies are releases *)
-Definition run_kube := kube_run rel (fun r => r) (fun b => Some b) (fun _ => true).
+Record case := mkCase { cbackend : backend; cops : list cop; cobs : list out }.
 
-Definition model_run (b : backend) (ops : list op) : list out :=
+Fixpoint all_some {A B} (f : A -> option B) (l : list A) : option (list B) :=
+  match l with
+  | [] => Some []
+  | a :: t => match f a, all_some f t with
+              | Some b, Some t' => Some (b :: t')
+              | _, _ => None
+              end
+  end.
+
+Definition to_mop (c : cop) : option mop :=
+  match c with COp o => Some (MOp o) | CSetNs ns => Some (MSetNs ns) | CCorrupt _ _ _ => None end.
+Definition to_xop (c : cop) : option xop :=
+  match c with COp o => Some (XOp o) | CCorrupt n v st => Some (XCorrupt n v st) | CSetNs _ => None end.
+Definition to_op (c : cop) : option op :=
+  match c with COp o => Some o | _ => None end.
+
+(* the codec instance used when running the model: a body is a release or undecodable *)
+Definition run_kube := kube_xrun (option rel) (fun r => Some r) (fun b => b) (fun _ => true) None.
+
+Definition model_run (b : backend) (cs : list cop) : list out :=
   match b with
-  | BMem => mem_run mem_init ops
-  | _ => run_kube [] ops
+  | BMem => match all_some to_mop cs with Some xs => mem_mrun mem_init xs | None => [] end
+  | _ => match all_some to_xop cs with Some xs => run_kube [] xs | None => [] end
   end.
 
 Fixpoint outs_agree (f : out -> out -> bool) (l1 l2 : list out) : bool :=
   match l1, l2 with
   | [], [] => true
-  | a :: t1, b :: t2 => f (strip_out a) (strip_out b) && outs_agree f t1 t2
+  | a :: t1, b :: t2 => f a b && outs_agree f t1 t2
   | _, _ => false
   end.
 
@@ -33,9 +56,31 @@ Definition out_spec_b (m s : out) : bool :=
   | _, _ => out_equiv_b m s
   end.
 
+(* all written releases in one namespace (the hypothesis of C10_mem_refines_spec) *)
+Fixpoint one_ns (seen : option string) (ops : list op) : bool :=
+  match ops with
+  | [] => true
+  | (OCreate r | OUpdate r) :: t =>
+      match seen with
+      | Some ns => String.eqb (ns_of r) ns && one_ns seen t
+      | None => one_ns (Some (ns_of r)) t
+      end
+  | _ :: t => one_ns seen t
+  end.
+
+(* model against implementation: exact, label sets included (which results carry system
+   labels is part of what is compared; the harness replaces time-stamp values by "0" as
+   the model does).  Implementation against reference map, for sequences of driver calls
+   within the hypotheses of the refinement theorems: after dropping system labels. *)
 Definition case_ok (c : case) : bool :=
   outs_agree out_equiv_b (model_run (cbackend c) (cops c)) (cobs c)
-  && outs_agree out_spec_b (cobs c) (spec_run [] (cops c)).
+  && match all_some to_op (cops c) with
+     | Some ops =>
+         if match cbackend c with BMem => one_ns None ops | _ => true end
+         then outs_agree out_spec_b (map strip_out (cobs c)) (map strip_out (spec_run [] ops))
+         else true
+     | None => true
+     end.
 
 Fixpoint mismatches_from (i : nat) (cs : list case) : list nat :=
   match cs with
